@@ -39,7 +39,13 @@ def RangeGood (env : Env) (I : List Char) (r : Range) : Prop := PosGood env I r.
 /-- a position stored in a diagnostic is one the lookup accepts, with its line and column -/
 def PosLc (env : Env) (p : Pos) : Prop := env.lineCol p.off = some (p.line, p.col)
 def RangeLc (env : Env) (r : Range) : Prop := PosLc env r.start ∧ PosLc env r.stop
-def DiagLc (env : Env) (d : Diag) : Prop := RangeLc env d.range ∧ ∀ ri ∈ d.related, RangeLc env ri.range
+/-- the context messages the syntax stage writes (`from_parse_error`; `none`: the transact-code Error of
+    the `Method` action) -/
+def synCtx (c : Option String) : Bool :=
+  c == none || c == some "invalid token" || c == some "unrecognized EOF" || c == some "unrecognized token"
+    || c == some "extra token"
+def DiagLc (env : Env) (d : Diag) : Prop :=
+  RangeLc env d.range ∧ (∀ ri ∈ d.related, RangeLc env ri.range) ∧ synCtx d.context = true
 def DiagsLc (env : Env) (ds : List Diag) : Prop := ∀ d ∈ ds, DiagLc env d
 
 theorem RangeGood.lc {env : Env} {I : List Char} {r : Range} (h : RangeGood env I r) : RangeLc env r := ⟨h.1.2, h.2.2⟩
